@@ -31,6 +31,17 @@ pub fn gen_values(env: &Env, d: &D, s: &mut Src, mode: Mode, n_member: usize, n_
             out.push((v, "member".into()));
         }
     }
+    // types with intersections: values that belong to one operand only
+    let has_inter = d.any_node(&mut |n| matches!(n, D::Inter(_))) || env.defs.iter().any(|(_, x)| x.any_node(&mut |n| matches!(n, D::Inter(_))));
+    if has_inter && n_near > 0 {
+        r.relax_inter.set(true);
+        for _ in 0..3 {
+            if let Some(v) = r.gen_member(d, s, 3) {
+                out.push((v, "near".into()));
+            }
+        }
+        r.relax_inter.set(false);
+    }
     for i in 0..n_near {
         let base = if members.is_empty() { arbitrary(s, 2) } else { members[i % members.len()].clone() };
         let m = mutate(&base, s);
